@@ -34,6 +34,9 @@ func addScripts(kinds []*l1kit.Kind) {
 		// hop limit: TTL 2 -> hop bytes 0 and 1 pass, 2 and more are dropped
 		{{K: "opt", A: l1kit.OTtl, C: 2}, {K: "addpipe"}, {K: "addpipe"}, {K: "deliver", A: 1, B: 1}, {K: "deliver", A: 1, B: 2}, {K: "deliver", A: 1, B: 3}, {K: "deliver", A: 2, B: 4},
 			{K: "recv"}, {K: "recv"}, {K: "recv"}},
+		// a member answers by refilling the message object it received and sending it on the same socket: everybody gets it,
+		// the peer the earlier message came from included
+		{{K: "addpipe"}, {K: "addpipe"}, {K: "addpipe"}, {K: "recv"}, {K: "deliver", A: 2, B: 1}, {K: "send", S: 3}, {K: "recv"}, {K: "deliver", A: 1, B: 1}, {K: "send", S: 3}, {K: "send"}},
 		// a hub with the smallest TTL: what it accepts (hop byte 0) it also passes on, with hop byte 1 -- whether the next
 		// member accepts that is the next member's decision (its TTL may be larger); hop byte 1 and more are dropped here
 		{{K: "opt", A: l1kit.OTtl, C: 1}, {K: "addpipe"}, {K: "addpipe"}, {K: "addpipe"}, {K: "deliver", A: 1, B: 1}, {K: "deliver", A: 2, B: 1}, {K: "deliver", A: 3, B: 2},
